@@ -14,8 +14,9 @@ EXPLANATION = (
 
 def run(ctx):
     ctx.uses('simulator', 'model', 'statistics')
+    # first: state shared between simulator objects (it makes every later anchor meaningless, so it is reported even when they vanish)
+    S.shared_state(ctx, None, 'R6.5')
     sc = S.SimCtx(ctx.prog)
-    S.shared_state(ctx, sc, 'R6.5')
     S.r61_initialize_order(ctx, sc)
     S.r62_registries(ctx, sc)
     S.r63_reset_completeness(ctx, sc)
